@@ -280,6 +280,9 @@ func (tps *TPS) OnMsg(msgBytes []byte, from uint16, _ bool) {
 }
 
 func (tps *TPS) flattenPublicKeys() [][]byte {
+	tps.lock.Lock()
+	defer tps.lock.Unlock()
+
 	publicKeys := make([][]byte, len(tps.parties))
 	for i, p := range tps.parties {
 		rawPK, exists := tps.publicKeysOfParties[p]
@@ -293,6 +296,9 @@ func (tps *TPS) flattenPublicKeys() [][]byte {
 }
 
 func (tps *TPS) assembleThresholdPublicKey() (map[string]PK, PK) {
+	tps.lock.Lock()
+	defer tps.lock.Unlock()
+
 	thresholdPublicKeys := make(map[string]PK)
 	var thresholdPublicKey PK
 	chooseKoutOfN(len(tps.parties), tps.threshold, func(evaluationPoints []int64) {
@@ -427,6 +433,9 @@ func (tps *TPS) waitForDeCommitmentDistribution(ctx context.Context) {
 }
 
 func (tps *TPS) combineShares() PK {
+	tps.lock.Lock()
+	defer tps.lock.Unlock()
+
 	for _, party := range tps.parties {
 		if party == tps.Party {
 			continue
